@@ -21,7 +21,7 @@ Proof. exact is_cached_iff. Qed.
 
 (* A cached tile last written at or before the threshold is fetched again the next time it is needed: the
    request issues at least one upstream request, and if it is answered at all, one of its upstream requests
-   covers the tile.  (The alternative is the SourceError of a failed upstream request.)  Single-tile and
+   covers the tile.  (The alternative is the error of a failed upstream request / broken response body.)  Single-tile and
    meta-tile creation, every rule kind, every upstream behaviour, every other content of the request. *)
 Theorem stale_refetched : forall Q m ev sc members s coords a e t s' r,
   0 < Q -> expire_timestamp Q m ev = ThrAt t ->
@@ -29,7 +29,7 @@ Theorem stale_refetched : forall Q m ev sc members s coords a e t s' r,
   get (s_cache s) a = Some e -> 0 <= e_ts e -> e_ts e <= t ->
   load_tile_coords Q m ev sc members s coords = (s', r) ->
   exists new, s_log s' = new ++ s_log s /\ new <> [] /\
-    (r = Raised ESource \/ exists l entry, r = Served l /\ In entry new /\ In a entry).
+    ((r = Raised ESource \/ r = Raised EBody) \/ exists l entry, r = Served l /\ In entry new /\ In a entry).
 Proof. exact stale_refetched_lemma. Qed.
 
 (* The same for a tile that is not in the cache. *)
@@ -38,7 +38,7 @@ Theorem missing_fetched : forall Q m ev sc members s coords a s' r,
   In a coords -> In a (members a) -> get (s_cache s) a = None ->
   load_tile_coords Q m ev sc members s coords = (s', r) ->
   exists new, s_log s' = new ++ s_log s /\ new <> [] /\
-    (r = Raised ESource \/ exists l entry, r = Served l /\ In entry new /\ In a entry).
+    ((r = Raised ESource \/ r = Raised EBody) \/ exists l entry, r = Served l /\ In entry new /\ In a entry).
 Proof. exact missing_fetched_lemma. Qed.
 
 (* Tiles whose whole second lies after the threshold are served from the cache: the answer is the cached
@@ -91,9 +91,11 @@ Theorem fresh_tile_not_refetched_single : forall Q m ev sc members s coords a s'
 Proof. exact fresh_not_refetched_single_lemma. Qed.
 
 (* A refresh that fails does not destroy the old tile: when no upstream answer from now on is a cacheable
-   image (errors, blank, uncacheable error images), the request leaves the whole cache as it was.  Both paths. *)
+   image (errors, blank, uncacheable error images - also when a pre_store_filter replaces the image -, a body that
+   breaks while it is read by the filter, the splitter or the store), the request leaves the whole cache as it
+   was.  Both paths, every back-end. *)
 Theorem failed_refresh_keeps_old : forall Q m ev sc members s coords,
-  (forall k au, (length (s_log s) <= k)%nat -> sc k <> UOk true au) ->
+  (forall k au v, (length (s_log s) <= k)%nat -> sc k <> UOk true au v) ->
   s_cache (fst (load_tile_coords Q m ev sc members s coords)) = s_cache s.
 Proof. exact request_failed_keeps_cache. Qed.
 
@@ -103,8 +105,8 @@ Theorem old_tile_survives : forall Q m ev sc members s coords a e,
   get (s_cache s) a = Some e ->
   let s' := fst (load_tile_coords Q m ev sc members s coords) in
   get (s_cache s') a = Some e \/
-  exists k au, (length (s_log s) <= k < length (s_log s'))%nat /\ sc k = UOk true au /\
-               get (s_cache s') a = Some (mkEntry (Z.of_nat k) (store_ts Q m ev)).
+  exists k au v, (length (s_log s) <= k < length (s_log s'))%nat /\ sc k = UOk true au v /\
+               get (s_cache s') a = Some (mkEntry (apply_tile_filter m v) (store_ts Q m ev)).
 Proof. exact request_entry_survives. Qed.
 
 (* Single-tile creation with the upstream down: every requested tile that exists - stale or not - is served
@@ -124,7 +126,7 @@ Theorem refresh_converges : forall Q m ev sc members s coords t,
   0 < Q -> 0 <= now ev ->
   expire_timestamp Q m ev = ThrAt t -> t < floor_sec Q (now ev) ->
   (forall a, In a coords -> In a (members a)) ->
-  (forall k, (length (s_log s) <= k)%nat -> sc k = UOk true false) ->
+  (forall k, (length (s_log s) <= k)%nat -> exists v, sc k = UOk true false v) ->
   exists s' l, load_tile_coords Q m ev sc members s coords = (s', Served l) /\
     (forall a, In a coords -> tm_is_cached Q m ev (s_cache s') a = Some true) /\
     load_tile_coords Q m ev sc members s' coords = (s', Served (map (content_of (s_cache s')) coords)).
@@ -146,7 +148,7 @@ Proof. exact history_never_deletes. Qed.
 
 (* ... and while the upstream gives no cacheable answer the cache does not change at all. *)
 Theorem history_upstream_down_cache_constant : forall Q sc members es w,
-  (forall k au, sc k <> UOk true au) ->
+  (forall k au v, sc k <> UOk true au v) ->
   s_cache (w_st (fst (run Q sc members w es))) = s_cache (w_st w).
 Proof. exact history_upstream_down. Qed.
 
@@ -174,5 +176,5 @@ Theorem seed_handed_tile_refetched : forall Q m ev sc members skip s t h a s' r,
   seed_select Q m ev (s_cache s) skip (members t) = Some h -> In a h -> In a (members a) ->
   load_tile_coords Q m ev sc members s h = (s', r) ->
   exists new, s_log s' = new ++ s_log s /\ new <> [] /\
-    (r = Raised ESource \/ exists l entry, r = Served l /\ In entry new /\ In a entry).
+    ((r = Raised ESource \/ r = Raised EBody) \/ exists l entry, r = Served l /\ In entry new /\ In a entry).
 Proof. exact seed_handed_refetched. Qed.
